@@ -23,11 +23,11 @@ use std::str::FromStr;
 use std::sync::atomic::{AtomicUsize, Ordering::Relaxed as Rlx};
 
 // ------------------------------------------------------------------------------------------------
-// capping allocator (2 GiB per worker)
+// capping allocator (512 MiB per worker)
 // ------------------------------------------------------------------------------------------------
 struct Cap;
 static USED: AtomicUsize = AtomicUsize::new(0);
-const LIMIT: usize = 2 << 30;
+const LIMIT: usize = 512 << 20;
 unsafe impl GlobalAlloc for Cap {
     unsafe fn alloc(&self, l: Layout) -> *mut u8 {
         if USED.fetch_add(l.size(), Rlx) + l.size() > LIMIT {
@@ -103,6 +103,15 @@ fn ok<T>(v: T) -> String {
 fn classify(msg: &str) -> String {
     let table: &[(&str, &str)] = &[
         ("the greatest common divisor is not defined between zeros", "GcdZeroZero"),
+        ("logarithm is not defined for non-positive", "LogOperand"),
+        ("attempt to divide by zero", "DivideBy0"),
+        ("attempt to calculate the remainder with a divisor of zero", "DivideBy0"),
+        ("attempt to divide with overflow", "PrimOverflow"),
+        ("attempt to calculate the remainder with overflow", "PrimOverflow"),
+        // documented panics raised by a plain assert! instead of an error.rs helper
+        ("assertion failed: chunk_bits > 0", "ChunkBitsZero"),
+        ("assertion failed: precision > 0", "UnlimitedPrecision"),
+        ("assertion failed: self.is_finite()", "OperateWithInf"),
         ("exponent is too large", "ExponentOverflow"),
         ("attempt to add with overflow", "ArithOverflow"),
         ("attempt to subtract with overflow", "ArithOverflow"),
